@@ -424,3 +424,65 @@ def nesting_operator_programs(check, family, seed, weight):
     table, behs = syntax.generate(check, family, rootcat="stmt", rootmax=1, depth=weight + 3, exhaustive=True, maxchoices=weight, allowed=ops + glue,
                                   glue=glue, wrappers=["ExprBrackets", "ExprFunctionCall"], timeout=2400)
     return table, behs, ops
+
+
+FAMILIES = {
+    "if": ("StmtIf", "StmtElse", "StmtElseIf"),
+    "loop": ("StmtWhile", "StmtFor", "StmtForeach", "StmtDo"),
+    "try": ("StmtTry", "StmtCatch", "StmtFinally"),
+    "switch": ("StmtSwitch", "StmtCase", "StmtDefault"),
+}
+
+
+def _cheapest_closers(table, family, ids):
+    """one closing variant per category that the variants `ids` (and the closers themselves) ask for: the cheapest one"""
+    fams = ("both", "7", "7g") if family == "7" else ("both", family)
+    vs = [v for v in table["variants"] if v["fam"] in fams]
+    INF = 10 ** 6
+    cost = {v["id"]: INF for v in vs}
+
+    def catcost(c, m):
+        k = [(cost[v["id"]], not v["leaf"], len(_requests(v["fill"])), v["id"]) for v in vs if _incat(v, c) and v["lvl"] >= m]
+        if not k:
+            return (INF, None)
+        best = min(k)
+        return (best[0], best[3])
+    for _ in range(40):
+        changed = False
+        for v in vs:
+            t = 1
+            for c, m, lo in _requests(v["fill"]):
+                if lo > 0:
+                    t += lo * catcost(c, m)[0]
+            t = min(t, INF)
+            if t < cost[v["id"]]:
+                cost[v["id"]] = t
+                changed = True
+        if not changed:
+            break
+    byid = {v["id"]: v for v in vs}
+    closers, todo, seen = set(), [r for i in ids for r in _requests(byid[i]["fill"])], set()
+    while todo:
+        c, m, lo = todo.pop()
+        if (c, m) in seen:
+            continue
+        seen.add((c, m))
+        k, vid = catcost(c, m)
+        if vid is None or k >= INF:
+            continue
+        if vid not in ids:
+            closers.add(vid)
+            todo += _requests(byid[vid]["fill"])
+    return sorted(closers)
+
+
+def family_nesting(check, family, fam_name, weight, seed=1):
+    """SyntaxGen's self-nesting mode with a FAMILY as the focus, exhaustive: every mix of the family's variants (e.g. all forms of
+    if / elseif / else, plain and alternative syntax) nested in each other, up to `weight` family nodes; conditions and bodies are
+    closed by ONE cheapest variant per category (a variable, `break;` ...)"""
+    table, _ = syntax.generate(check, family, num=1, seed=seed, depth=1)
+    fams = ("both", "7", "7g") if family == "7" else ("both", family)
+    ids = [v["id"] for v in table["variants"] if v["fam"] in fams and v["id"].split("/")[0] in FAMILIES[fam_name]]
+    g = _cheapest_closers(table, family, ids)
+    return syntax.generate(check, family, rootcat="stmt", rootmax=1, depth=weight + 2, exhaustive=True, maxchoices=weight, allowed=ids + g, glue=g, wrappers=[],
+                           focusfamily=ids, timeout=600)
